@@ -208,6 +208,19 @@ class Parser:
                 self.p += 1
                 return "SBreak"
             self.fail("unsupported statement")
+        if k == "name" and v == "table" and self.t[self.p + 1][:2] == ("op", ".") and self.t[self.p + 2][:2] == ("name", "sort"):
+            # table.sort(t, function(a, b) return a < b end)   /   ... return a > b end
+            self.p += 3
+            self.expect("op", "("); tv = self.expect("name"); self.expect("op", ",")
+            self.expect("kw", "function"); self.expect("op", "(")
+            a = self.expect("name"); self.expect("op", ","); b = self.expect("name"); self.expect("op", ")")
+            self.expect("kw", "return")
+            a2 = self.expect("name"); k3, op, _ = self.peek(); self.p += 1; b2 = self.expect("name")
+            self.expect("kw", "end"); self.expect("op", ")")
+            if (a2, b2) != (a, b) or op not in ("<", ">"):
+                self.fail("table.sort comparator other than 'a < b' / 'a > b'")
+            fn = "table.sort_asc" if op == "<" else "table.sort_desc"
+            return "(SAssign %s (ECall %s %s))" % (cstr(tv), cstr(fn), clist(["(EVar %s)" % cstr(tv)]))
         if k == "name":
             e, kind = self.suffixed()
             if self.accept("op", "="):
